@@ -133,7 +133,7 @@ char *re_read(char **src)
 	struct sbuf *sbuf;
 	char *s = *src;
 	int delim = (unsigned char) *s++;
-	if (!delim)
+	if (!delim || delim >= 0x80)	/* not part of a multi-byte character */
 		return NULL;
 	sbuf = sbuf_make();
 	while (*s && *s != delim) {
